@@ -29,7 +29,7 @@ ReqVid(x) == 30 + x              \* ids 31..35 are the strings "1".."5"
 ReqOfVid(v) == IF v = 0 THEN 0 ELSE v - 30
 TrueLike == {7, 27, 10}          \* True, "True", "true"
 Max2(a, b) == IF a >= b THEN a ELSE b
-FailModes == {"fail", "failb"}
+FailModes == {"fail", "failb", "failk"}     \* failk: the attempt fails AND the broker refuses the re-send
 
 MaxRetries(c, f) == IF f["max_retries"] = 0 THEN c.retry.defcount ELSE IntOfVid(f["max_retries"])
 RetryEnabled(c, f) == IF f["retry_on_error"] = 0 THEN c.retry.deflabel ELSE f["retry_on_error"] \in TrueLike
@@ -136,7 +136,9 @@ ClCheck(c, op, o, ev) ==
           LET mx == MaxRetries(c, par.exp)
               resend == op.run.mode \in FailModes /\ c.retry.on /\ RetryEnabled(c, par.exp) /\ par.att < mx
               expKicks == IF resend \/ op.run.mode = "requeue" THEN 1 ELSE 0
+              refused == op.run.mode = "failk" /\ resend
               expSaves == CASE op.run.mode = "ok" -> 1
+                            [] refused -> 0
                             [] op.run.mode \in {"nores", "requeue"} -> 0
                             [] OTHER -> IF resend /\ c.retry.nores THEN 0 ELSE 1
           IN (IF op.run.mode # "requeue" /\ op.run.kicks # expKicks
@@ -144,6 +146,10 @@ ClCheck(c, op, o, ev) ==
              \cup (IF op.run.saves # expSaves \/ (op.run.saves = 1 /\ op.run.saveErr # (op.run.mode \in FailModes))
                    THEN {"C11_Results"} ELSE {})
              \cup (IF op.run.execs # 1 THEN {"C11_ExecOnce"} ELSE {})
+             (* an attempt that could neither be re-sent nor left a result must not end as if all was well (the message *)
+             (* would be acknowledged and the task silently lost)                                                         *)
+             \cup (IF refused /\ ev.s # "raised" THEN {"C11_Lost"} ELSE {})
+             \cup (IF ~refused /\ ev.s # "ok" THEN {"C11_Crashed"} ELSE {})
         ELSE {})
   \cup (IF ev.e = "exec" /\ ev.j \in DOMAIN o.msg /\ (ev.x # 5 \/ ev.s # "z") THEN {"C11_SameArgs"} ELSE {})
 =============================================================================
